@@ -1039,9 +1039,10 @@ func (e *Engine) NotifyNewBlocks(blks []blocks.Block) {
 		k := b.Cid()
 		blockSize := blockSizes[k]
 
+		// Hold the lock while the tasks are pushed, so that a cancel or a
+		// completed send cannot slip in between the ledger read and the push.
 		e.lock.RLock()
 		peers := e.peerLedger.Peers(k)
-		e.lock.RUnlock()
 
 		for _, entry := range peers {
 			work = true
@@ -1066,6 +1067,7 @@ func (e *Engine) NotifyNewBlocks(blks []blocks.Block) {
 			})
 			e.updateMetrics()
 		}
+		e.lock.RUnlock()
 	}
 
 	if work {
